@@ -1869,8 +1869,6 @@ class Function:
 
     def map(self, *a, **k): raise Undecided("Function.map")
     def expand(self): return self
-    def sz_w(self): raise Undecided("Function instruction access (reinterpret_expr)")
-    def n_instructions(self): raise Undecided("Function instruction access (reinterpret_expr)")
     def __repr__(self): return "Function(%s)" % self._name
 
 
